@@ -207,8 +207,12 @@ def short(t, depth=0):
 
 
 def subterms(t):
-    if isinstance(t, tuple):
+    if isinstance(t, tuple) and t and isinstance(t[0], str):
         yield t
+        for x in t:
+            if isinstance(x, tuple):
+                yield from subterms(x)
+    elif isinstance(t, tuple):
         for x in t:
             if isinstance(x, tuple):
                 yield from subterms(x)
